@@ -76,6 +76,10 @@ impl<'gc> Trace<'gc> for Rec {
     }
 }
 
+pub trait DynP<'gc>: 'gc + gc_arena::collect::DynCollect<'gc> {}
+gc_arena::collect::dyn_collect!(dyn DynP<'gc>);
+impl<'gc> DynP<'gc> for Vec<P<'gc>> {}
+
 fn expect<'gc>(ps: &[P<'gc>]) -> (Vec<usize>, Vec<usize>) {
     let mut s = Vec::new();
     let mut w = Vec::new();
@@ -239,6 +243,28 @@ pub fn table() -> Vec<(&'static str, BuildFn)> {
             let g = if seed % 2 == 0 { b.copy_slice(mc, &rest) } else { b.write_slice_with(mc, |i| rest[i]) };
             check("SliceWithHeader (header and elements)", &*g, ps, errs);
             (Gc::erase(g), ps.len())
+        }),
+        ("SliceWithHeader header only", |mc, ps, seed, errs| {
+            let h = ps.first().copied().unwrap_or(P::N(0));
+            let n = (seed % 5) as usize;
+            let g = GcSliceWithHeaderBuilder::<P, u8>::new(n).write_header(h).write_slice_with(mc, |i| i as u8);
+            check("SliceWithHeader<pointer header, plain elements>", &*g, &ps[..ps.len().min(1)], errs);
+            (Gc::erase(g), ps.len().min(1))
+        }),
+        ("SliceWithHeader elements only", |mc, ps, _s, errs| {
+            let g = GcSliceWithHeaderBuilder::<u64, P>::new(ps.len()).write_header(7).copy_slice(mc, ps);
+            check("SliceWithHeader<plain header, pointer elements>", &*g, ps, errs);
+            (Gc::erase(g), ps.len())
+        }),
+        ("Arc<[T]>", |mc, ps, _s, errs| {
+            let r: Arc<[P]> = Arc::from(ps.to_vec());
+            (fin(mc, "Arc<[T]>", r, ps, errs), ps.len())
+        }),
+        ("Box<dyn DynCollect>", |mc, ps, _s, errs| {
+            fn boxed<'gc>(ps: &[P<'gc>]) -> Box<dyn DynP<'gc> + 'gc> {
+                Box::new(ps.to_vec())
+            }
+            (fin(mc, "Box<dyn Trait> through dyn_collect! (dyn_trace adapter)", boxed(ps), ps, errs), ps.len())
         }),
         ("GcSlice", |mc, ps, _s, errs| {
             let g = gc_arena::GcSlice::new_slice(mc, ps);
